@@ -239,8 +239,8 @@ class AdaptiveThresholder(SoftBitThresholder):
         """
         # Handle LLR inputs by converting to probability space for thresholding
         if self.input_type == InputType.LLR:
-            # Convert LLRs to probabilities using sigmoid: P(bit=0) = 1 / (1 + exp(-LLR))
-            x_prob = torch.sigmoid(x)
+            # Convert LLRs to P(bit=1) = 1 / (1 + exp(LLR)): positive LLRs mean bit 0
+            x_prob = torch.sigmoid(-x)
         else:
             x_prob = x
 
